@@ -354,10 +354,14 @@ impl<T: Send> Sender<T> {
 
 impl<T: Send> Clone for Sender<T> {
   fn clone(&self) -> Self {
-    self.shared.add_sender();
+    // a clone of a closed handle is closed too: it must not revive a disconnected channel
+    let closed = self.closed.load(Ordering::Relaxed);
+    if !closed {
+      self.shared.add_sender();
+    }
     Sender {
       shared: Arc::clone(&self.shared),
-      closed: AtomicBool::new(false),
+      closed: AtomicBool::new(closed),
     }
   }
 }
@@ -489,10 +493,14 @@ impl<T: Send> AsyncSender<T> {
 
 impl<T: Send> Clone for AsyncSender<T> {
   fn clone(&self) -> Self {
-    self.shared.add_sender();
+    // a clone of a closed handle is closed too: it must not revive a disconnected channel
+    let closed = self.closed.load(Ordering::Relaxed);
+    if !closed {
+      self.shared.add_sender();
+    }
     AsyncSender {
       shared: Arc::clone(&self.shared),
-      closed: AtomicBool::new(false),
+      closed: AtomicBool::new(closed),
     }
   }
 }
